@@ -822,7 +822,7 @@ Section RingFacts.
         rewrite deliveries_push. apply N.eqb_neq in E. rewrite E. reflexivity.
   Qed.
 
-  Lemma deliveries_route : forall (P : N -> bool) (T : (list N * N) -> list N) deltas tbl q,
+  Lemma deliveries_route : forall (P : N -> bool) (T : (list N * (N * N)) -> list N) deltas tbl q,
     (forall d, NoDup (T d)) ->
     deliveries (fold_left (fun tbl d =>
                   fold_left (fun tbl t => if P t then tbl_push t d tbl else tbl) (T d) tbl) deltas tbl) q =
@@ -877,7 +877,7 @@ Section RingFacts.
   Qed.
 
   (* shape of the table itself: one entry per target, never an empty entry *)
-  Definition tbl_ok (tbl : list (N * list (list N * N))) : Prop :=
+  Definition tbl_ok (tbl : list (N * list (list N * (N * N)))) : Prop :=
     NoDup (map fst tbl) /\ Forall (fun p => snd p <> []) tbl.
 
   Lemma tbl_push_keys : forall t d tbl x, In x (map fst (tbl_push t d tbl)) <-> x = t \/ In x (map fst tbl).
@@ -905,7 +905,7 @@ Section RingFacts.
   Lemma route_selective_ok : forall r os deltas, tbl_ok (route_selective r os deltas).
   Proof.
     intros r os deltas. unfold Ring.route_selective.
-    assert (H0 : tbl_ok []) by (split; constructor). revert H0. generalize (@nil (N * list (list N * N))).
+    assert (H0 : tbl_ok []) by (split; constructor). revert H0. generalize (@nil (N * list (list N * (N * N)))).
     induction deltas as [|d ds IH]; intros tbl H; [exact H|].
     cbn [fold_left]. apply IH.
     generalize (get_gossip_targets (gr_ring r) (d_key d) (gr_me r) (os (kpos (d_key d)))).
@@ -955,11 +955,11 @@ Section RingFacts.
   (* ---------------------------------------------------------------------------------- *)
   (* queue_deltas                                                                          *)
 
-  Definition targeted_msg (g : gstate) (p : N * list (list N * N)) : option N * gmsg :=
+  Definition targeted_msg (g : gstate) (p : N * list (list N * (N * N))) : option N * gmsg :=
     (Some (fst p), TargetedDelta (g_id g) (fst p) (snd p) (g_epoch g)).
 
   Lemma filter_nonempty_ok : forall tbl, tbl_ok tbl ->
-    filter (fun p : N * list (list N * N) => negb (is_nil (snd p))) tbl = tbl.
+    filter (fun p : N * list (list N * (N * N)) => negb (is_nil (snd p))) tbl = tbl.
   Proof.
     intros tbl [_ Hf]. apply filter_all. intros p Hp. rewrite Forall_forall in Hf.
     specialize (Hf p Hp). destruct (snd p); [contradiction | reflexivity].
@@ -977,7 +977,7 @@ Section RingFacts.
     unfold Ring.queue_deltas. destruct deltas as [|d0 ds0]; [contradiction|].
     rewrite Hr, Hs. unfold Ring.route_deltas. rewrite Hs. cbn [g_queue].
     set (tbl := route_selective r os (d0 :: ds0)) in *.
-    assert (Hf : filter (fun p : N * list (list N * N) => negb (is_nil (snd p))) (ord tbl) = ord tbl).
+    assert (Hf : filter (fun p : N * list (list N * (N * N)) => negb (is_nil (snd p))) (ord tbl) = ord tbl).
     { apply filter_all. intros p Hin. apply (Permutation_in _ Hp) in Hin.
       destruct (route_selective_ok r os (d0 :: ds0)) as [_ Hok]. rewrite Forall_forall in Hok.
       specialize (Hok p Hin). destruct (snd p); [contradiction | reflexivity]. }
